@@ -22,7 +22,7 @@ SLOTS = "/tmp/seedv"
 DIRS = r"(client|frame|message|primitive|segment|datacodec|datatype|crc|compression/lz4|compression/snappy)"
 RELATED = {
     "C01": ["C01", "C02", "C05"], "C02": ["C02", "C01"], "C03": ["C03", "C02"], "C04": ["C04"], "C05": ["C05", "C18"],
-    "C06": ["C06", "C18"], "C07": ["C07"], "C08": ["C08", "C18"], "C09": ["C09", "C10"], "C10": ["C10", "C09", "C15"],
+    "C06": ["C06", "C18"], "C07": ["C07"], "C08": ["C08", "C06", "C18"], "C09": ["C09", "C10"], "C10": ["C10", "C09", "C15"],
     "C11": ["C11", "C12"], "C12": ["C12", "C11"], "C13": ["C13"], "C14": ["C14", "C11"], "C15": ["C15"],
     "C16": ["C16"], "C17": ["C17"], "C18": ["C18"], "C19": ["C19"], "C20": ["C20"],
 }
